@@ -19,6 +19,10 @@ SLICER_SET_ITERATION_TRIAGED = {
     # (function, rename-stable site key - see core/localkeys.py)
     ('supporting_database_for_provable', 'expr:_ @ for _ in _: if _.issubset(_): _.append(DisjointStatement(tuple((Metavariable(_) for _ in _))))'):
         '(`global_disjoints`) only the order of the emitted `$d` statements depends on it, and `$d` statements commute',
+    ('supporting_database_for_provable', 'expr:_ @ (DisjointStatement(tuple(map(Metavariable, _))) for _ in _ if _.issubset(_))'):
+        '(`global_disjoints`, generator spelling of the same loop) only the order of the emitted `$d` statements depends on it',
+    ('supporting_database_for_provable', 'expr:_ @ (DisjointStatement(tuple((Metavariable(_) for _ in _))) for _ in _ if _.issubset(_))'):
+        '(`global_disjoints`, generator spelling of the same loop) only the order of the emitted `$d` statements depends on it',
 }
 
 
@@ -225,7 +229,7 @@ def run(ctx):
                    py.where(SLICER, s.node))
     # floating hypotheses are emitted in the order of that container
     P0 = sup.args.args[0].arg
-    emits = [n for n in ast.walk(sup) if isinstance(n, ast.For) and ast.unparse(n.iter) in (f'{P0}.items()', f'{P0}.values()', P0)
+    emits = [n for n in ast.walk(_display_as_appends(sup)) if isinstance(n, ast.For) and ast.unparse(n.iter) in (f'{P0}.items()', f'{P0}.values()', P0)
              and any(isinstance(c, ast.Call) and isinstance(c.func, ast.Attribute) and c.func.attr == 'append' for c in ast.walk(n))]
     ctx.ob('slice-order', 'hypotheses-emitted-in-container-order', bool(emits),
            f'supporting_database_for_provable must emit the kept statements by iterating `{P0}` in order', py.where(SLICER, sup))
@@ -261,6 +265,7 @@ def run(ctx):
     ctx.ob('dispatch-ends-raising', 'slice_database', ok,
            'the statement-kind dispatch of slice_database must end in a branch that raises for an unanticipated kind', py.where(SLICER, fn))
     slice_closure(ctx, py)
+    scans_recurse_into_blocks(ctx, py)
     disjoint_all_pairs(ctx, py)
     parser_state_fresh(ctx, py)
     variables_complete(ctx, py)
@@ -288,12 +293,190 @@ def _own_nodes(fn):
                 stack.append(c)
 
 
+def scans_recurse_into_blocks(ctx, py: PyRepo):
+    """a block is a statement that contains statements, to any depth (an axiom with a `$d` and hypotheses is written as nested blocks):
+    the scans that feed the `$c` / `$v` declarations must reach the statements inside every nested block - the constant scan by
+    calling itself on `block.statements`, the variable scan by uniting `get_metavariables()` of every statement of the block"""
+    from ..core.pyeval import PyEval
+    fn = py.function(SLICER, 'statements_get_constants')
+    where = py.where(SLICER, fn)
+    mi = py.modules[SLICER]
+
+    def resolver(call, env, _ev):
+        if isinstance(call.func, ast.Name) and call.func.id in mi.functions and call.func.id != fn.name and call.func.id not in env:
+            return mi.functions[call.func.id], None
+        return None
+    ctx.require(len(fn.args.args) == 1, 'statements_get_constants: signature changed')
+    STMTS = ('param', fn.args.args[0].arg)
+    ELEM = ('elem', STMTS)
+    saw_block, bad = 0, []
+    for p in PyEval(resolver=resolver, max_inline=2).paths(fn):
+        for e in p.events:
+            if e.kind != 'loop' or e.value[0] != 'for' or e.value[2] != STMTS:
+                continue
+            for sp in e.extra:
+                is_block = [b for c, b in sp.conds if c == ('call', ('name', 'isinstance'), (ELEM, ('name', 'Block')), ())]
+                if not is_block or is_block[-1] is not True or sp.end[0] == 'raise':
+                    continue
+                saw_block += 1
+
+                def calls(evs):
+                    for x in evs:
+                        if x.kind == 'ecall':
+                            yield x.value
+                        elif x.kind == 'loop':
+                            for q in x.extra:
+                                yield from calls(q.events)
+                rec = [c for c in calls(sp.events) if c[1] == ('name', fn.name) and c[2] == (('attr', ELEM, 'statements'),)]
+                if not rec:
+                    bad.append('a block is scanned without calling the scan again on `block.statements`')
+    ctx.require(saw_block > 0, 'statements_get_constants: no path handles a Block statement - cannot decide whether nested blocks are scanned')
+    ctx.ob('slice-closure', 'constant-scan-recurses-into-blocks', not bad,
+           'the constants of a slice are collected ' + '; '.join(sorted(set(bad))) + ': statements in a block nested inside a block (an axiom '
+           'with disjointness conditions and hypotheses) are not scanned, their constants are missing from the `$c` declaration of the slice',
+           where, facts={'paths through a Block': saw_block})
+    blk = py.cls('Block', AST)
+    gm = blk.methods.get('get_metavariables')
+    ctx.require(gm is not None, 'anchor vanished: Block.get_metavariables')
+    SELF = ('param', 'self')
+    ok = False
+    STS = ('attr', SELF, 'statements')
+
+    def unfiltered_comp(v):
+        """some sub-value is a comprehension over self.statements, without a filter, whose element is <stmt>.get_metavariables()"""
+        if not isinstance(v, tuple) or not v:
+            return False
+        if v[0] == 'comp' and len(v[3]) == 1 and v[3][0][1] == STS and not v[3][0][2] \
+                and v[2] == ('call', ('attr', ('bound', v[3][0][0]), 'get_metavariables'), (), ()):
+            return True
+        return any(unfiltered_comp(x) for x in v if isinstance(x, tuple))
+    for p in PyEval().paths(gm):
+        if p.end[0] != 'return':
+            continue
+        loops = [e for e in p.events if e.kind == 'loop' and e.value[0] == 'for' and e.value[2] == STS]
+        ok = (len(loops) == 1 and all(any(x.kind == 'ecall' and x.value[1] == ('attr', ('elem', STS), 'get_metavariables')
+                                           for x in sp.events) for sp in loops[0].extra if sp.end[0] in ('fall', 'continue'))) \
+            or (not loops and unfiltered_comp(p.end[1]))
+        if not ok:
+            break
+    ctx.ob('slice-closure', 'variable-scan-recurses-into-blocks', ok,
+           'Block.get_metavariables must unite get_metavariables() of EVERY statement of the block (which recurses into nested blocks)',
+           py.where(AST, gm))
+
+
+def _display_as_appends(fn: ast.FunctionDef) -> ast.FunctionDef:
+    """`return Database((e1, *(f(x) for x in xs if c), e2))` is the list built by `out = []; out.append(e1); for x in xs: if c:
+    out.append(f(x)); out.append(e2); return Database(tuple(out))` - same elements, same order, same evaluation order.  The slice
+    rules are stated on the second spelling; a copy of the function in that spelling is returned (the original if it already is)."""
+    import copy
+    last = fn.body[-1] if fn.body else None
+    if not (isinstance(last, ast.Return) and isinstance(last.value, ast.Call) and ast.unparse(last.value.func) == 'Database'
+            and len(last.value.args) == 1 and not last.value.keywords):
+        return fn
+    arg = last.value.args[0]
+    while isinstance(arg, ast.Call) and isinstance(arg.func, ast.Name) and arg.func.id in ('tuple', 'list') and len(arg.args) == 1:
+        arg = arg.args[0]
+    if not isinstance(arg, (ast.Tuple, ast.List)):
+        return fn
+    g = copy.deepcopy(fn)
+    OUT = 'slice_out_'
+    new: list[ast.stmt] = [ast.Assign(targets=[ast.Name(id=OUT, ctx=ast.Store())], value=ast.List(elts=[], ctx=ast.Load()))]
+
+    def app(e):
+        return ast.Expr(value=ast.Call(func=ast.Attribute(value=ast.Name(id=OUT, ctx=ast.Load()), attr='append', ctx=ast.Load()), args=[e], keywords=[]))
+    garg = g.body[-1].value.args[0]
+    while isinstance(garg, ast.Call):
+        garg = garg.args[0]
+    for e in garg.elts:
+        if isinstance(e, ast.Starred) and isinstance(e.value, (ast.GeneratorExp, ast.ListComp)):
+            body: list[ast.stmt] = [app(e.value.elt)]
+            for gen in reversed(e.value.generators):
+                for c in reversed(gen.ifs):
+                    body = [ast.If(test=c, body=body, orelse=[])]
+                body = [ast.For(target=gen.target, iter=gen.iter, body=body, orelse=[])]
+            new.extend(body)
+        elif isinstance(e, ast.Starred) and isinstance(e.value, ast.IfExp) and isinstance(e.value.orelse, (ast.Tuple, ast.List)) and not e.value.orelse.elts \
+                and isinstance(e.value.body, (ast.Tuple, ast.List)):
+            new.append(ast.If(test=e.value.test, body=[app(x) for x in e.value.body.elts] or [ast.Pass()], orelse=[]))     # *([x] if c else [])
+        elif isinstance(e, ast.Starred):
+            new.append(ast.Expr(value=ast.Call(func=ast.Attribute(value=ast.Name(id=OUT, ctx=ast.Load()), attr='extend', ctx=ast.Load()),
+                                               args=[e.value], keywords=[])))
+        else:
+            new.append(app(e))
+    ret = ast.Return(value=ast.Call(func=ast.Name(id='Database', ctx=ast.Load()),
+                                    args=[ast.Call(func=ast.Name(id='tuple', ctx=ast.Load()), args=[ast.Name(id=OUT, ctx=ast.Load())], keywords=[])], keywords=[]))
+    for st in new + [ret]:
+        ast.copy_location(st, last)
+        ast.fix_missing_locations(st)
+    g.body = g.body[:-1] + new + [ret]
+    # statement order is what the rules read: give the new statements increasing positions after the last original one
+    for k, st in enumerate(new + [ret]):
+        for n in ast.walk(st):
+            if hasattr(n, 'lineno'):
+                n.lineno = n.end_lineno = last.lineno + k
+    return g
+
+
+def _inline_local_predicates(fn: ast.FunctionDef) -> ast.FunctionDef:
+    """a nested function of the form `if c1: return e1 .. return en` used as a condition (`if keep(x, y):`) is replaced, at its uses
+    in conditions, by the boolean expression it computes, so that path conditions mention the facts and not the predicate's name"""
+    import copy
+    preds = {}
+    for st in fn.body:
+        if isinstance(st, ast.FunctionDef) and not st.args.vararg and not st.args.kwarg and not st.args.defaults:
+            arms, ok = [], True
+            for b in st.body[:-1]:
+                if isinstance(b, ast.Expr) and isinstance(b.value, ast.Constant):
+                    continue
+                if isinstance(b, ast.If) and not b.orelse and len(b.body) == 1 and isinstance(b.body[0], ast.Return) and b.body[0].value is not None:
+                    arms.append((b.test, b.body[0].value))
+                else:
+                    ok = False
+            last = st.body[-1] if st.body else None
+            if ok and isinstance(last, ast.Return) and last.value is not None:
+                expr = last.value
+                for c, e in reversed(arms):
+                    if isinstance(e, ast.Constant) and e.value is True:
+                        expr = ast.BoolOp(op=ast.Or(), values=[c, expr])
+                    elif isinstance(e, ast.Constant) and e.value is False:
+                        expr = ast.BoolOp(op=ast.And(), values=[ast.UnaryOp(op=ast.Not(), operand=c), expr])
+                    else:
+                        expr = ast.BoolOp(op=ast.Or(), values=[ast.BoolOp(op=ast.And(), values=[c, e]),
+                                                               ast.BoolOp(op=ast.And(), values=[ast.UnaryOp(op=ast.Not(), operand=c), expr])])
+                preds[st.name] = ([a.arg for a in st.args.args], expr)
+    if not preds:
+        return fn
+
+    class T(ast.NodeTransformer):
+        def visit_If(self, node):
+            self.generic_visit(node)
+            node.test = R().visit(node.test)
+            return node
+
+    class R(ast.NodeTransformer):
+        def visit_Call(self, node):
+            self.generic_visit(node)
+            if isinstance(node.func, ast.Name) and node.func.id in preds and not node.keywords and len(node.args) == len(preds[node.func.id][0]) \
+                    and all(isinstance(a, (ast.Name, ast.Attribute)) for a in node.args):
+                params, expr = preds[node.func.id]
+                table = dict(zip(params, node.args))
+
+                class S(ast.NodeTransformer):
+                    def visit_Name(self, n):
+                        return copy.deepcopy(table[n.id]) if n.id in table and isinstance(n.ctx, ast.Load) else n
+                return ast.copy_location(S().visit(copy.deepcopy(expr)), node)
+            return node
+    g = T().visit(copy.deepcopy(fn))
+    ast.fix_missing_locations(g)
+    return g
+
+
 def slice_closure(ctx, py: PyRepo):
     """self-containedness of a slice, as a closure rule over supporting_database_for_provable: every statement the slice EMITS is
     one whose symbols were SCANNED into the sets the `$c` / `$v` declarations and the floating hypotheses are generated from; the
     scan is complete before anything is emitted; declarations precede uses; floating hypotheses come out of one in-order pass."""
     from ..core import astpaths
-    fn = py.function(SLICER, 'supporting_database_for_provable')
+    fn = _inline_local_predicates(_display_as_appends(py.function(SLICER, 'supporting_database_for_provable')))
     where = py.where(SLICER, fn)
     params = [a.arg for a in fn.args.args]
     ctx.require(len(params) == 5, 'supporting_database_for_provable: signature changed (expected cut antecedents, global disjoints, '
@@ -332,6 +515,20 @@ def slice_closure(ctx, py: PyRepo):
     VC, c_site = decl_var('ConstantStatement')
     VM, v_site = decl_var('VariableStatement')
     ctx.require(VC is not None and VM is not None, 'supporting_database_for_provable: no `$c` / `$v` declaration is generated from a local set')
+    # the grammar reads `$v token+ $.`: a `$v` statement without a variable does not parse.  A lemma and its cone may use no variable
+    # at all, so the `$v` declaration must be emitted only on paths where the variable set is known to be non-empty.  (`$c` needs no
+    # such guard: the lemma itself is scanned unconditionally and every statement starts with a constant, its typecode.)
+    gram = grammar_rules(py) or {}
+    if 'variable_stmt' in gram:
+        guarded = True
+        for sp in astpaths.paths(fn.body):
+            if any(any(x is v_site for x in ast.walk(a)) for a in sp.actions):
+                nonempty = sp.holds(VM) is True or sp.holds(f'len({VM}) > 0') is True or sp.holds(f'len({VM}) == 0') is False \
+                    or sp.holds(f'len({VM})') is True or sp.holds(f'len({VM}) >= 1') is True or sp.holds(f'len({VM}) != 0') is True
+                guarded = guarded and nonempty
+        ctx.ob('slice-closure', 'variable-declaration-only-when-non-empty', guarded,
+               f'the slice emits `$v` built from `{VM}` on a path where `{VM}` may be empty: the printed statement `$v $.` is not in the '
+               f'grammar (`"$v" token+ "$."`), so the slice of a lemma whose cone uses no variable does not re-parse', py.where(SLICER, v_site))
 
     def iter_origins(it):
         """origins named by the iterable of a scanning loop"""
